@@ -212,6 +212,7 @@ func TestVerif_C19_Sign(t *testing.T) {
 	rec.Rule("rapid: SignHashed under a scripted reader: stream = 0..4 candidates that must be rejected (k>=n, k=0, r=0, r+k=n, s=0 by construction) + acceptable + trailing; reads chunked (full, byte-wise, mixed sizes incl. up to 3 consecutive empty successful reads); first failure at a drawn byte offset (anywhere in 0..len, weighted to the inside of each candidate and to candidate boundaries) with io.EOF / io.ErrUnexpectedEOF / a custom error / EAGAIN / EINTR / a PathError / a wrapped error whose Temporary() is true / a deadline error, alone or together with the final chunk, the source either staying failed or RECOVERING after having reported the error once; or no failure. Oracle (ReadFull model): failure before the last needed byte -> err != nil, r = s = nil, no panic; otherwise success equal to the reference signature and no byte consumed beyond the accepted candidate. Non-trivial: failure strictly inside a candidate, or after >= 1 rejected candidate, or chunked reads; distinct by (stream, failAt, err, chunks).")
 	t.Cleanup(stats.FlushAll)
 	rapid.Check(t, func(t *rapid.T) {
+		foreignCalls(t, rec, "foreign") // state left behind by other entry points must not matter
 		c := sm2gen.DrawSignCase(t)
 		s := &c19Script{stream: c.Stream, need: 32 * c.Cands, failAt: -1, chunks: c19Chunks(t)}
 		mode := gen.Pick(t, "fault", "none", "inside", "inside", "boundary", "anywhere")
@@ -242,6 +243,7 @@ func TestVerif_C19_Keygen(t *testing.T) {
 	rec.Rule("rapid: GenerateKey under the same scripted reader: stream = 0..4 out-of-range candidates (0, n-1, n, n+1, 2^256-1, uniform>=n-1) + valid + trailing; chunking and first-failure position as for signing; plus GenerateKey(nil). Oracle: failure before the last needed byte -> err != nil and x = y = nil; otherwise priv = first valid candidate and (x,y) = [d]G by the reference. Non-trivial as for signing.")
 	t.Cleanup(stats.FlushAll)
 	rapid.Check(t, func(t *rapid.T) {
+		foreignCalls(t, rec, "foreign") // state left behind by other entry points must not matter
 		nrej := gen.Int(t, "nrej", 0, 4)
 		var stream []byte
 		for i := 0; i < nrej; i++ {
